@@ -165,7 +165,7 @@ def noise_atoms(x):
 
 
 def eval_call(model, n_pieces, have_H, have_A, zero_length=False, return_U=True, return_A=True, hooks=None,
-              dt_known=True):
+              dt_known=True, size=None):
     """BrownianInterval.__call__ on a query covered by n_pieces contiguous stored pieces."""
     fi = model.func(BI, "BrownianInterval.__call__")
     bcls = model.cls(BI, "BrownianInterval")
@@ -195,7 +195,7 @@ def eval_call(model, n_pieces, have_H, have_A, zero_length=False, return_U=True,
         hooks.ordering = order
     it = Interp(model, hooks)
     me = Obj("bm", cls=bcls, attrs={
-        "_start": nf.sym("T0", True), "_end": nf.sym("T1", True), "_size": SIZE, "_dtype": "dtype",
+        "_start": nf.sym("T0", True), "_end": nf.sym("T1", True), "_size": SIZE if size is None else tuple(size), "_dtype": "dtype",
         "_device": "device", "_have_H": have_H, "_have_A": have_A, "_dt": nf.sym("DT", True) if dt_known else None,
         "_halfway_tree": False, "_round": identity_round(), "_last_interval": last,
         "_num_evaluations": Fraction(-100), "_average_dt": Fraction(0), "_tree_dt": nf.sym("TREE_DT", True),
